@@ -192,7 +192,7 @@ two bytes before the last `--boundary` found by `b.rfind(b"--" + boundary, sp)`.
 of the buffer can have a match that starts before the old position (`NoEarly`, true of position 0),
 then no continuation can have one that starts before the new position, and for **every** continuation
 `c` — any amount of transport padding on the first delimiter included — searching `b ++ c` from the
-new position finds the same first delimiter as searching from 0. No `PadOk` bound any more. -/
+new position finds the same first delimiter as searching from 0. The former padding bound is gone. -/
 theorem searchPos_irrelevant {bnd b : Bytes} {sp : Nat} (hsp : NoEarly bnd sp b)
     (hnone : searchDelimFrom bnd true sp b = none) (c : Bytes) :
     NoEarly bnd (nextSearchPos bnd b sp) b ∧
